@@ -11,8 +11,11 @@ What is decided, and how
   B  scales@wfn/wfx   get_mocoeff_scales is applied to a basis that carries the conventions of the rows it scales
         (the MolecularBasis passed to it is constructed with the module's CONVENTIONS, to which the coefficients
         were converted): AST contract.
-  C  guard@fchk.prepare_dump   small-scope exhaustive run of the real prepare_dump: whenever it accepts an object,
-        the alpha and the beta occupations are both 1...1 0...0 (all FCHK can express): bounded, n <= 5.
+  C  fchk.prepare_dump (pyvc, symbolic execution, orbitals of any size and any occupation numbers, restricted with and
+        without occs_aminusb and unrestricted): whatever is accepted has alpha and beta occupations 1...1 0...0 (all FCHK
+        can express) and no more beta than alpha electrons; only PrepareDumpError is raised.  The sum and the rounding
+        are abstracted as arbitrary functions of the occupation vector (the argument only needs that both slices are cut
+        at the same number).  Cross-checked by a small-scope exhaustive run of the real function (bounded, n <= 5).
   D  bounded   bounded/wfn_probe.py: random wavefunctions x features (shell order, conventions, contraction scheme,
         orbital kind, virtuals, ghost/ECP centres, pure/Cartesian) x 5 writers x allow_changes; the reloaded wavefunction
         is compared with the written one as functions of space by an evaluator independent of iodata.
@@ -144,6 +147,96 @@ def scales_contract(led):
         led.record(f"scales@{fmt}.dump_one::normalization-constants-are-computed-in-the-conventions-of-the-rows-they-scale", "post", "discharged" if ok else "refuted", "ast", 0.0, detail=detail, witness={"needs": "a source object with another ordering of Cartesian d (or higher) functions, e.g. alphabetical"})
 
 
+def job_fchk_guard(kind="restricted", aminusb=False):
+    """fchk.prepare_dump on orbitals of any size and any occupation numbers: whatever is accepted has alpha and beta
+    occupations 1...1 0...0 (all FCHK can express) and no more beta than alpha electrons."""
+    import z3
+
+    from pyvc.harness import get_target, verify
+    from pyvc.interp import Config
+    from pyvc.values import SBool, SOpt, to_z3
+
+    from checks.c12 import make_mo
+    from checks.c14 import make_data
+
+    T = "iodata.formats.fchk.prepare_dump"
+    tagk = kind + ("+aminusb" if aminusb else "")
+    cfg = Config()
+    cfg.contracts["iodata.prepare.prepare_segmented"] = lambda interp, args, kwargs: args[0]
+    import numpy as np
+    from pyvc.values import SReal
+    sums = {}
+    def np_sum(interp, args, kwargs):
+        # the argument only uses that both slices of one occupation vector are cut at the same number: the sum itself is
+        # an arbitrary real, the same for the same array contents
+        arr = interp.resolve(args[0])
+        key = str(arr.get((z3.Int("k!sum"),))) + "|" + str(arr.shape[0])
+        if key not in sums:
+            sums[key] = SReal(z3.Real(f"sum!{len(sums)}"))
+        return sums[key]
+    cfg.models[np.sum] = np_sum
+    from pyvc.values import SInt
+    rounds = {}
+    def np_round(interp, args, kwargs):
+        v = interp.resolve(args[0])
+        key = str(to_z3(v))
+        if key not in rounds:
+            rounds[key] = SInt(z3.Int(f"round!{len(rounds)}"))
+        return rounds[key]
+    cfg.models[np.round] = np_round
+    def setup(ctx, interp):
+        mo, d = make_mo(ctx, kind, tag="mo")
+        for k in ("occs", "coeffs", "energies"):
+            v = mo.fields[k]
+            mo.fields[k] = v.val if isinstance(v, SOpt) else v
+        if kind == "restricted":
+            if aminusb:
+                mo.fields["occs_aminusb"] = mo.fields["occs_aminusb"].val
+            else:
+                mo.fields["occs_aminusb"] = None
+        data = make_data(ctx, mo=mo, obasis="OBASIS")
+        return get_target("iodata.formats.fchk:prepare_dump"), [data, SBool(z3.Bool("allow")), "x.fchk"], {}, dict(mo=mo, d=d)
+    def post(out, env):
+        ctx, interp = out.ctx, out.interp
+        mo = env["mo"]
+        if out.kind == "raise":
+            ctx.prove(f"{T}[{tagk}]::raises.only-PrepareDumpError", getattr(out.exc_class, "__name__", "") == "PrepareDumpError", kind="raises")
+            return
+        oa = interp.resolve(interp.load_attr(mo, "occsa")); ob = interp.resolve(interp.load_attr(mo, "occsb"))
+        i = z3.Int("gi")
+        na = z3.Int("g_na"); nb = z3.Int("g_nb")
+        def aufbau(arr, n):
+            ln = arr.shape[0] if not isinstance(arr.shape[0], int) else z3.IntVal(arr.shape[0])
+            return z3.And(n >= 0, n <= ln, z3.ForAll([i], z3.Implies(z3.And(i >= 0, i < ln), to_z3(arr.get((i,))) == z3.If(i < n, z3.RealVal(1), z3.RealVal(0)))))
+        import numpy as np
+        def witness(arr):
+            # the number the code itself derives, with Python's slice semantics for out-of-range / negative bounds
+            n = to_z3(interp.resolve(interp.call(int, [interp.call(np.round, [interp.call(np.sum, [arr], {})], {})], {})))
+            ln = arr.shape[0] if not isinstance(arr.shape[0], int) else z3.IntVal(arr.shape[0])
+            return z3.If(n < 0, z3.If(ln + n < 0, z3.IntVal(0), ln + n), z3.If(n > ln, ln, n))
+        def prove_aufbau(name, arr):
+            # Skolemised goal + instances of the quantified facts of the path condition at the Skolem constant and at
+            # its offsets by the cut (what the two `.all()` tests of the code range over)
+            w = witness(arr)
+            c = z3.Int(ctx.fresh("sk"))
+            ln = arr.shape[0] if not isinstance(arr.shape[0], int) else z3.IntVal(arr.shape[0])
+            goal = z3.And(w >= 0, w <= ln, z3.Implies(z3.And(c >= 0, c < ln), to_z3(arr.get((c,))) == z3.If(c < w, z3.RealVal(1), z3.RealVal(0))))
+            inst = []
+            for f in ctx.pc:
+                if z3.is_quantifier(f) and f.is_forall() and f.num_vars() == 1:
+                    for t in (c, c - w):
+                        inst.append(z3.substitute_vars(f.body(), t))
+            for h in inst:
+                ctx.assume(h)
+            ctx.prove(name, goal)
+        prove_aufbau(f"{T}[{tagk}]::post.accepted-alpha-occupations-are-ones-then-zeros", oa)
+        prove_aufbau(f"{T}[{tagk}]::post.accepted-beta-occupations-are-ones-then-zeros", ob)
+        raw = lambda arr: to_z3(interp.resolve(interp.call(int, [interp.call(np.round, [interp.call(np.sum, [arr], {})], {})], {})))  # noqa: E731
+        ctx.prove(f"{T}[{tagk}]::post.accepted-objects-have-no-more-beta-than-alpha-electrons", raw(ob) <= raw(oa))
+    return verify(T, setup, post, config=cfg, max_paths=300)
+
+
+
 GUARD_SCRIPT = r"""
 import itertools, json, sys, warnings
 import numpy as np
@@ -251,7 +344,7 @@ def run_probe(chk):
 
 def run(chk):
     chk.functions += [f"iodata.formats.{f}.dump_one (+ helpers): every expression combining permutation and signs" for f in WRITERS]
-    chk.functions += ["iodata.formats.wfn.dump_one / wfx.dump_one: basis passed to get_mocoeff_scales", "iodata.formats.fchk.prepare_dump (bounded, exhaustive small scope)"]
+    chk.functions += ["iodata.formats.wfn.dump_one / wfx.dump_one: basis passed to get_mocoeff_scales", "iodata.formats.fchk.prepare_dump (symbolic execution, all sizes and occupations; plus exhaustive small scope as cross-check)"]
     chk.trusted += [
         "numpy fancy indexing and broadcasting behave uniformly in the matrix size (use-site obligations are exhaustive for n = 4 only)",
         "contract of convert_conventions (C10), of convert_to_segmented / convert_to_unrestricted / prepare_* (C14), overlap (C06): proved in those checks, used here",
@@ -269,6 +362,9 @@ def run(chk):
         chk.fault(f"permutation/sign expressions found per writer: {per_writer}: every writer converts conventions, so the extraction is broken")
     scales_contract(led)
     chk.merge(led)
+    from pyvc.pool import collect, run_jobs
+
+    collect(chk, run_jobs([("checks.c01", "job_fchk_guard", {"kind": k, "aminusb": a}) for k, a in (("unrestricted", False), ("restricted", False), ("restricted", True))]))
     probe = os.path.join(VERIF, "bounded", "wfn_probe.py")
     for o in chk.ledger.obligations.values():
         if o.status == "refuted" and o.name.startswith(("use-site@", "scales@")):
